@@ -95,7 +95,11 @@ def impl_writer(case):
             return LineScheduler.block_until(self, pred)
 
     sched = Sched(files=("eliot/logwriter.py",), timeout=10)
-    STOP = lw._STOP
+    # the writer's stop sentinel, whatever it is called: the module-level plain object() instance
+    STOP = getattr(lw, "_STOP", None)
+    if STOP is None:
+        cands = [v for k, v in vars(lw).items() if type(v) is object]
+        STOP = cands[0] if cands else object()
 
     def desc(item):
         if item is STOP:
